@@ -44,6 +44,7 @@ Definition ores_eqb (a b : ores) : bool :=
   match a, b with
   | OSkipped, OSkipped | OOk, OOk | OErr, OErr | OErrBad, OErrBad => true
   | OP2 x, OP2 y => Bool.eqb x y
+  | OChk x, OChk y => (fix leq (a b : list nat) := match a, b with [], [] => true | u :: a', v :: b' => Nat.eqb u v && leq a' b' | _, _ => false end) x y
   | _, _ => false
   end.
 
